@@ -13,6 +13,7 @@ both yield [("all", "A", "m"), ("elem", "b", "m"), ("all", "C", "m")]."""
 from __future__ import annotations
 
 import ast
+import copy
 from dataclasses import dataclass, field
 
 from .astutil import conjuncts, unparse
@@ -27,18 +28,92 @@ class Loop:
     body: list["Path"]
 
 
+class _Sub(ast.NodeTransformer):
+    def __init__(self, env: dict[str, ast.AST]):
+        self.env = env
+
+    def visit_Name(self, node: ast.Name):
+        if isinstance(node.ctx, ast.Load) and node.id in self.env and self.env[node.id] is not None:
+            return copy.deepcopy(self.env[node.id])
+        return node
+
+    def visit_NamedExpr(self, node: ast.NamedExpr):
+        return self.visit(node.value)
+
+    def visit_Lambda(self, node):
+        return node
+
+    visit_ListComp = visit_SetComp = visit_DictComp = visit_GeneratorExp = visit_Lambda
+
+
+def subst(e: ast.AST, env: dict[str, ast.AST]) -> ast.AST:
+    return ast.fix_missing_locations(_Sub(env).visit(copy.deepcopy(e)))
+
+
 @dataclass
 class Path:
     facts: list[tuple[ast.AST, bool]] = field(default_factory=list)
     effects: list[object] = field(default_factory=list)  # ast.stmt | ("test", expr) | Loop | ("except", handler)
     end: str = "fall"  # fall | return | raise | break | continue
     value: ast.AST | None = None
+    env: dict[str, ast.AST | None] = field(default_factory=dict)  # local name -> expression it stands for on this path
+    envs: list[dict] = field(default_factory=list)  # env before each effect
+    rfacts: list[tuple[ast.AST, bool]] = field(default_factory=list)  # facts with locals replaced (path-sensitive)
 
     def fork(self) -> "Path":
-        return Path(list(self.facts), list(self.effects), self.end, self.value)
+        return Path(list(self.facts), list(self.effects), self.end, self.value, dict(self.env), list(self.envs), list(self.rfacts))
 
     def fact_texts(self) -> list[tuple[str, bool]]:
         return [(unparse(t), p) for t, p in self.facts]
+
+    def rfact_texts(self) -> list[tuple[str, bool]]:
+        return [(unparse(t), p) for t, p in self.rfacts]
+
+    def add(self, eff) -> None:
+        self.effects.append(eff)
+        self.envs.append(dict(self.env))
+
+    def res(self, e: ast.AST, k: int | None = None) -> str:
+        """Text of `e` with the locals replaced by what they stand for before effect k (default: at the end)."""
+        env = self.env if k is None else self.envs[k]
+        return unparse(subst(e, env))
+
+    def nfacts(self) -> set[tuple[str, bool]]:
+        """Normalised resolved facts (astutil.norm_fact)."""
+        from .astutil import norm_fact
+
+        return {norm_fact(t, p) for t, p in self.rfacts}
+
+    def feasible(self) -> bool:
+        """False when two resolved facts contradict each other (same atom, both polarities): the path tests the same
+        bound value twice with different outcomes."""
+        nf = self.nfacts()
+        return not any((t, not p) in nf for t, p in nf)
+
+    def rvalue(self) -> str | None:
+        return None if self.value is None else self.res(self.value, len(self.effects) - 1 if self.effects else None)
+
+    def _bind(self, st: ast.AST) -> None:
+        for x in ast.walk(st) if not isinstance(st, (ast.FunctionDef, ast.ClassDef)) else []:
+            if isinstance(x, ast.NamedExpr) and isinstance(x.target, ast.Name):
+                self.env[x.target.id] = subst(x.value, self.env)
+        if isinstance(st, ast.Assign) and len(st.targets) == 1:
+            t = st.targets[0]
+            if isinstance(t, ast.Name):
+                self.env[t.id] = subst(st.value, self.env)
+                return
+            if isinstance(t, (ast.Tuple, ast.List)) and isinstance(st.value, (ast.Tuple, ast.List)) and len(t.elts) == len(st.value.elts):
+                vals = [subst(v, self.env) for v in st.value.elts]
+                for a, v in zip(t.elts, vals):
+                    if isinstance(a, ast.Name):
+                        self.env[a.id] = v
+                return
+        if isinstance(st, ast.AnnAssign) and isinstance(st.target, ast.Name) and st.value is not None:
+            self.env[st.target.id] = subst(st.value, self.env)
+            return
+        for x in ast.walk(st):
+            if isinstance(x, ast.Name) and isinstance(x.ctx, (ast.Store, ast.Del)) and not any(isinstance(y, ast.NamedExpr) and y.target is x for y in ast.walk(st)):
+                self.env[x.id] = None
 
 
 def _seq(stmts: list[ast.stmt], live: list[Path]) -> list[Path]:
@@ -58,7 +133,9 @@ def _seq(stmts: list[ast.stmt], live: list[Path]) -> list[Path]:
 
 def _branch(p: Path, test: ast.expr, pol: bool) -> Path:
     q = p.fork()
-    q.effects.append(("test", test))
+    q.add(("test", test))
+    q.rfacts.extend(conjuncts(subst(test, q.env), pol))
+    q._bind(ast.Expr(value=test))
     q.facts.extend(conjuncts(test, pol))
     return q
 
@@ -70,7 +147,10 @@ def _stmt(st: ast.stmt, p: Path) -> list[Path]:
         body = _seq(st.body, [Path()])
         out = []
         q = p.fork()
-        q.effects.append(Loop(st, body))
+        q.add(Loop(st, body))
+        for x in ast.walk(st):
+            if isinstance(x, ast.Name) and isinstance(x.ctx, (ast.Store, ast.Del)):
+                q.env[x.id] = None
         if isinstance(st, ast.While) and not (isinstance(st.test, ast.Constant) and st.test.value is True):
             q.facts.extend(conjuncts(st.test, False)) if not any(b.end == "break" for b in body) else None
         # a while True loop only leaves through break / return / raise
@@ -80,14 +160,19 @@ def _stmt(st: ast.stmt, p: Path) -> list[Path]:
         for b in body:
             if b.end in ("return", "raise"):
                 e = p.fork()
-                e.effects.append(Loop(st, body))
+                e.add(Loop(st, body))
+                for x in ast.walk(st):
+                    if isinstance(x, ast.Name) and isinstance(x.ctx, (ast.Store, ast.Del)):
+                        e.env[x.id] = None
                 e.facts.extend(b.facts)
+                e.rfacts.extend(b.rfacts)
                 e.end, e.value = b.end, b.value
                 out.append(e)
         return out
     if isinstance(st, (ast.With, ast.AsyncWith)):
         q = p.fork()
-        q.effects.append(("with", st))
+        q.add(("with", st))
+        q._bind(st)
         return _seq(st.body, [q])
     if isinstance(st, ast.Try):
         out = _seq(st.body, [p.fork()])
@@ -99,7 +184,10 @@ def _stmt(st: ast.stmt, p: Path) -> list[Path]:
                 res.append(o)
         for h in st.handlers:
             q = p.fork()
-            q.effects.append(("except", h))
+            for x in ast.walk(ast.Module(body=st.body, type_ignores=[])):
+                if isinstance(x, ast.Name) and isinstance(x.ctx, (ast.Store, ast.Del)):
+                    q.env[x.id] = None
+            q.add(("except", h))
             res.extend(_seq(h.body, [q]))
         if st.finalbody:
             fin: list[Path] = []
@@ -115,10 +203,15 @@ def _stmt(st: ast.stmt, p: Path) -> list[Path]:
         covered = False
         for c in st.cases:
             q = p.fork()
-            q.effects.append(("test", st.subject))
+            q.add(("test", st.subject))
+            q.rfacts.append((ast.Compare(left=subst(st.subject, q.env), ops=[ast.Eq()], comparators=[ast.Constant(unparse(c.pattern))]), True))
             q.facts.append((ast.Compare(left=st.subject, ops=[ast.Eq()], comparators=[ast.Constant(unparse(c.pattern))]), True))
+            for x in ast.walk(c.pattern):
+                if isinstance(x, (ast.MatchAs, ast.MatchStar)) and x.name:
+                    q.env[x.name] = None
             if c.guard is not None:
                 q.facts.extend(conjuncts(c.guard, True))
+                q.rfacts.extend(conjuncts(subst(c.guard, q.env), True))
             out.extend(_seq(c.body, [q]))
             if isinstance(c.pattern, ast.MatchAs) and c.pattern.pattern is None and c.guard is None:
                 covered = True
@@ -127,10 +220,10 @@ def _stmt(st: ast.stmt, p: Path) -> list[Path]:
         return out
     q = p.fork()
     if isinstance(st, ast.Return):
-        q.effects.append(st)
+        q.add(st)
         q.end, q.value = "return", st.value
     elif isinstance(st, ast.Raise):
-        q.effects.append(st)
+        q.add(st)
         q.end, q.value = "raise", st.exc
     elif isinstance(st, ast.Break):
         q.end = "break"
@@ -139,7 +232,8 @@ def _stmt(st: ast.stmt, p: Path) -> list[Path]:
     elif isinstance(st, ast.Pass):
         pass
     else:
-        q.effects.append(st)
+        q.add(st)
+        q._bind(st)
     return [q]
 
 
